@@ -139,5 +139,9 @@ def run(chk: Check) -> None:
         o.key = o.key.replace("C13.R4", "C09.R4")
     chk.min_instances.pop("C13.R4", None)
     chk.rule_text.pop("C13.R4", None)
+    # contracts of other parts of the library this check takes for granted (summaries, token model, reference grammar):
+    # the clauses that check the source against them, replayed under this property (props/contracts.py)
+    from .contracts import run_contracts
+    run_contracts(chk, prog, ['clone', 'evaluate', 'traversal', 'factor', 'tokenizer', 'parser'])
     chk.exhaustive = True
     chk.max_undecided = 0
